@@ -402,6 +402,53 @@ func TestCheck(t *testing.T) {
 
 	r.ColdPhase(coldFirst)
 
+	// Phase U: Size.UnmarshalJSON reads under the package-level DefaultRule: every rule word is installed there in turn.
+	r.Phase("U: Size.UnmarshalJSON and json.Unmarshal with every rule word installed as DefaultRule x MaxObjectKeys {16, 1, 2}", func() {
+		old := size.DefaultRule
+		defer func() { size.DefaultRule = old }()
+		docs := []string{`{"value":3,"unit":"KiB"}`, `{"unit":"kB","value":2}`, `{"value":1,"unit":"B","x":1}`, `{"x":[1,{"y":2}],"VALUE":1,"Unit":"B"}`, `{"value":1}`, `{"unit":"B"}`, `{"value":1,"value":2,"unit":"B"}`,
+			`"1 kB"`, `"10"`, `"x"`, "10", "1.5", "-1", "null", "true", "[]", `{"value":1,"unit":"kB"} x`, `{"value":1,"unit":"kB"`, "", " 7 ", `{}`, `{"value":0,"unit":"ZB"}`, `"1 KiB" `}
+		for rule := 0; rule < 16; rule++ {
+			size.DefaultRule = size.Rule(rule)
+			for _, mk := range []int{16, 1, 2} {
+				restore := configure(mk)
+				r.Serial(func(w *vkit.W) {
+					for _, doc := range docs {
+						c := Case{Input: vkit.B(doc), Rule: rule, MaxKeys: mk}
+						v := Judge([]byte(doc), size.Rule(rule), mk)
+						if v.Unspecified || v.Either {
+							continue
+						}
+						for _, path := range []string{"UnmarshalJSON", "json.Unmarshal"} {
+							s := size.Size(4242)
+							var err error
+							vkit.Panics(func() {})
+							if path == "UnmarshalJSON" {
+								err = s.UnmarshalJSON(w.Scratch(doc))
+							} else if json.Valid([]byte(doc)) && doc != "null" {
+								err = json.Unmarshal([]byte(doc), &s)
+							} else {
+								continue
+							}
+							switch {
+							case err == nil && !v.Accept:
+								w.Fail(c, "invalid-input-accepted", fmt.Sprintf("%s(%q) with DefaultRule=%#b, MaxObjectKeys=%d = %d; oracle refuses: %s %v", path, doc, rule, mk, uint64(s), v.Reason, v.Faults))
+							case err == nil && uint64(s) != v.Value:
+								w.Fail(c, "wrong-value", fmt.Sprintf("%s(%q) with DefaultRule=%#b = %d, the decoded form gives %d", path, doc, rule, uint64(s), v.Value))
+							case err != nil && v.Accept:
+								w.Fail(c, "valid-input-rejected", fmt.Sprintf("%s(%q) with DefaultRule=%#b, MaxObjectKeys=%d: oracle accepts with %d (%s), library error %v", path, doc, rule, mk, v.Value, v.Reason, err))
+							case err != nil && s != 4242:
+								w.Fail(c, "receiver-changed-on-error", fmt.Sprintf("%s(%q) with DefaultRule=%#b: error %v, receiver %d", path, doc, rule, err, uint64(s)))
+							}
+						}
+						w.EvalRandom(vkit.Hash64("U", doc, strconv.Itoa(rule), strconv.Itoa(mk)), true)
+					}
+				})
+				restore()
+			}
+		}
+	})
+
 	// Phase B: top-level scalars and strings x 16 rules
 	r.Phase("B: numbers, strings (with escapes), literals, arrays x 16 rules + truncations/suffixes", func() {
 		defer configure(16)()
